@@ -5,6 +5,7 @@ import Driver.Canister
 import Driver.Transform
 import BtcModel.Model.TxCodec
 import BtcModel.Model.Endpoints
+import BtcModel.Model.BlockCodec
 
 open Btc
 
@@ -31,6 +32,8 @@ structure DState where
   /-- C06: interleaved page walk (address, limit, next token, first tip, collected so far, same tip, expected set) -/
   walk : Option (Addr × Nat × (Nat × Nat × OutPoint) × (Nat × Nat) × List Utxo × Bool × String) := none
   lastPopped : Nat := 0
+  /-- number of blocks on which the model's own decoding disagreed with the library's -/
+  codecBad : Nat := 0
 
 def statusCode : Watchdog.Status → Nat
   | .notEnoughData => 0 | .ok => 1 | .ahead => 2 | .behind => 3
@@ -71,11 +74,24 @@ def splitBlob (s : String) : String × String :=
   | [a, b] => (if a == "-" then "" else a, b)
   | _ => (s, "G")
 
+/-- The model's own decoding of a block from its consensus bytes (`Btc.BlockCodec`): hash, txids,
+    virtual sizes, coinbase flags, OP_RETURN flags and address texts are *computed* here. The
+    harness' text (what the real library derived) supplies only the float-valued difficulty; any other
+    disagreement is counted in `codecBad` and marks the output line. -/
+def decodeChecked (net : Tree.Net) (hex : String) (text : String) : Option Block × Bool :=
+  let claimed : Option Block := if text == "G" then none else some (parseBlock text)
+  let diff := match claimed with | some b => b.diff | none => 0
+  let own := Btc.BlockCodec.blockOfBytes net (fun _ => diff) (hexToBytes hex)
+  (own, own == claimed)
+
+def netOf (d : DState) : Tree.Net := match d.st with | some s => s.network | none => .regtest
+
 def registerBlocks (d : DState) (items : List String) : DState × List String :=
   items.foldl (fun (acc : DState × List String) it =>
     let (blob, dec) := splitBlob it
-    let decoded := if dec == "G" then none else some (parseBlock dec)
-    ({ acc.1 with decBlocks := AList.insert acc.1.decBlocks blob decoded }, acc.2 ++ [blob])) (d, [])
+    let (decoded, same) := decodeChecked (netOf d) blob dec
+    ({ acc.1 with decBlocks := AList.insert acc.1.decBlocks blob decoded,
+                  codecBad := acc.1.codecBad + (if same then 0 else 1) }, acc.2 ++ [blob])) (d, [])
 
 def registerHeaders (d : DState) (items : List String) : DState × List String :=
   items.foldl (fun (acc : DState × List String) it =>
@@ -89,11 +105,12 @@ def showRequest : State.Request → String
   | .followUp k => s!"followup {k}"
 
 def applyReply (d : DState) (s : State) (r : State.Reply) : DState × String :=
+  let mark := if d.codecBad > 0 then s!" !codec={d.codecBad}" else ""
   match s.heartbeatReply r with
-  | some s' => ({ d with st := some s' }, s!"stored | {summary s'}")
+  | some s' => ({ d with st := some s' }, s!"stored | {summary s'}{mark}")
   | none =>
     let s' := s.replyTrapState
-    ({ d with st := some s' }, s!"trap | {summary s'}")
+    ({ d with st := some s' }, s!"trap | {summary s'}{mark}")
 
 def parseFees (csv : String) : Fees :=
   match (splitOnChar csv ',').map String.toNat! with
@@ -218,15 +235,21 @@ def stepCanister (d : DState) (ws : List String) : DState × String :=
     | .answered true acc s' => ({ d with st := some s' }, s!"ok accepted={acc} counted=1 forwarded={net}:same")
     | .answered false acc _ => (d, s!"err MalformedTransaction accepted={acc} counted=0 forwarded=none")
   | ["q", "synced"], some s => (d, if s.isSynced Btc.Gen.syncedThreshold then "1" else "0")
-  | ["init", net, thr, blk], _ =>
-    match State.new thr.toNat! (parseNet net) (parseBlock blk) with
-    | some s => ({ d with st := some s, ghost := [] }, "-")
-    | none => (d, "trap")
-  | ["push", blk], some s =>
-    match s.unstable.push s.utxos (parseBlock blk) with
-    | .ok u => ({ d with st := some { s with unstable := u } }, "ok")
-    | .doesNotExtend => (d, "noextend")
-    | .trap _ => (d, "trap")
+  | ["init", net, thr, blk, raw], _ =>
+    match decodeChecked (parseNet net) raw blk with
+    | (some b, true) =>
+      (match State.new thr.toNat! (parseNet net) b with
+      | some s => ({ d with st := some s, ghost := [] }, "-")
+      | none => (d, "trap"))
+    | _ => ({ d with codecBad := d.codecBad + 1 }, "codec-mismatch")
+  | ["push", blk, raw], some s =>
+    match decodeChecked s.network raw blk with
+    | (some b, true) =>
+      (match s.unstable.push s.utxos b with
+      | .ok u => ({ d with st := some { s with unstable := u } }, "ok")
+      | .doesNotExtend => (d, "noextend")
+      | .trap _ => (d, "trap"))
+    | _ => ({ d with codecBad := d.codecBad + 1 }, "codec-mismatch")
   | ["ingest", budget], some s =>
     let finish (s' : State) (o : String) : DState × String :=
       -- ghost: the roots that were popped, in order
@@ -406,8 +429,11 @@ def step (st : DState) (ws : List String) : DState × String :=
     | none => (st, "reject")
     | some t => (st, s!"accept reencodes={if Btc.TxCodec.encodeTx t == bytes then 1 else 0}")
   | ["t", ep, status, nh, body, parsed] => (st, stepTransform ep status nh body parsed)
-  | ["b", "validate", blk] =>
-    match State.validateBody (parseBlock blk) with
+  | ["b", "validate", blk, raw] =>
+    match decodeChecked .regtest raw blk with
+    | (none, _) | (_, false) => (st, "codec-mismatch")
+    | (some b, true) =>
+    match State.validateBody b with
     | none => (st, "ok")
     | some .noTransactions => (st, "NoTransactions")
     | some .invalidCoinbase => (st, "InvalidCoinbase")
